@@ -65,6 +65,8 @@ def obligations(tier, seed):
         sk("rollup_midrow_edm", "S_RU2;S_LIT(0x41,0x42);S_MRX;S_TXA;S_EDM;S_TXS"),
         sk("rollup_dup_badpar", "S_RU2;S_RU2;S_TXA;S_CR;S_CR;S_TXA;S_MISCBAD(0x2D);S_TXS"),
         sk("popon_datax", "S_RCL;S_PAC(7,0);S_LIT(0x41,0x42);S_DATAX;S_TXA;S_EOC"),
+        # the same control code meant twice in succession = three / four identical pairs on field 1: (i)(1) drops exactly the second of each pair of transmissions
+        sk("rollup_cr_x3", "S_RU3;S_TXA;S_CR;S_CR;S_CR;S_TXA"),
         # paint-on
         sk("painton_basic", "S_RDC;S_PACC(7);S_LIT(0x41,0x20);S_TXA;S_MR(5)"),
         sk("painton_midrow", "S_RDC;S_PAC(7,0);S_LIT(0x41,0x42);S_MRX;S_TXS"),
@@ -84,6 +86,9 @@ def obligations(tier, seed):
     ]
     seqs_t = [
         sk("t_rollup_datax", "S_RU3;S_LIT(0x41,0x42);S_DATAX;S_TXA;S_TXS"),
+        sk("t_popon_bs_x4", "S_RCL;S_PAC(5,0x14);S_LIT(0x41,0x42);S_LIT(0x43,0x44);S_BS;S_BS;S_BS;S_BS;S_TXA;S_EOC"),
+        # dropped after measurement: t_popon_tab_x3 "S_RCL;S_PAC(9,0x10);S_TXA;S_TO(3);S_TO(3);S_TO(3);S_TXA;S_EOC": discharged, but 885 s / 4.6 GB against the 900 s cap
+        sk("t_rollup_cr_x4", "S_RU4;S_PAC(14,0);S_TXA;S_CR;S_CR;S_CR;S_CR;S_TXA"),
         sk("t_popon_pacx_r1", "S_RCL;S_PACX(2);S_TXA;S_CH;S_EOC"),
         sk("t_popon_pacc_r15", "S_RCL;S_PACC(9);S_TXA;S_CH;S_EOC"),
         sk("t_popon_paci_r15", "S_RCL;S_PACI(9);S_TXA;S_EOC"),
